@@ -992,6 +992,11 @@ impl Wallet {
 
     let amount = decimal.to_integer(entry.divisibility)?;
 
+    ensure!(
+      amount > 0,
+      "rune amount must be greater than zero, an edict with amount zero transfers all runes",
+    );
+
     let inscribed_outputs = self
       .inscriptions()
       .keys()
